@@ -177,13 +177,18 @@ def determinism_stage(tier_, key):
         for P in range(6):
             for s in range(2 if q else 5):
                 nid += 1
-                cli_cases.append({"id": nid, "P": P, "seed": sub_seed("detcli", P, s) % 100000, "n": 5 if q else 9})
+                cli_cases.append({"id": nid, "P": P, "seed": sub_seed("detcli", P, s) % 100000, "n": 5 if q else 9, "extra": []})
+            # more samples than workers (one worker serves several samples), with mutators
+            nid += 1
+            cli_cases.append({"id": nid, "P": P, "seed": sub_seed("detcli-m", P) % 100000, "n": 24 if q else 96,
+                              "extra": ["--mutators", "bitflip", "offbyone", "character", "--mutation-rate", "0.5"]})
         for c in cli_cases:
             for threads in (1, 2, 16):
                 od = os.path.join(d, "clidet_%d_%d" % (c["id"], threads))
                 shutil.rmtree(od, ignore_errors=True)
                 p = run([exe, "--dir", od, "--samples", str(c["n"]), "--seed", str(c["seed"]), "--protocol", str(c["P"]),
-                         "--min-opcodes", "150", "--max-opcodes", "300"], env={"RAYON_NUM_THREADS": str(threads)}, check=False, timeout=600)
+                         "--min-opcodes", "40" if c["extra"] else "150", "--max-opcodes", "90" if c["extra"] else "300"] + c["extra"],
+                        env={"RAYON_NUM_THREADS": str(threads)}, check=False, timeout=600)
                 for i in range(c["n"]):
                     fp = os.path.join(od, "%d.pkl" % i)
                     if os.path.exists(fp):
@@ -360,6 +365,11 @@ def leak_stage(tier_, key):
             J.bytes_job(corpus.cfg(P, ext=True, buf=True), blen=2000, thread=True)
             # one generator, hundreds of different pickles: what it still holds after reset() must not keep growing
             J.bytes_job(corpus.cfg(P, ext=True, buf=True), blen=3000, growth=150 if q else 1500)
+            # the buffer-size option with inputs shorter and longer than it
+            for bs, bl in ((4096, 100), (4096, 6000), (64, 10), (0, 50)):
+                J.bytes_job(corpus.cfg(P, bufsize=bs), blen=bl)
+                J.bytes_job(corpus.cfg(P, bufsize=bs), blen=bl, warm=3)
+            J.seed_job(corpus.cfg(P, bufsize=512), warm=2)
             J.bytes_job(corpus.cfg(P, 60, 300, muts=corpus.MUTS, rate=0.5, unsafe=True, ext=True), blen=3000, growth=100 if q else 1000)
         jf = os.path.join(d, "leak_jobs.json"); json.dump(J.jobs, open(jf, "w"))
         of = os.path.join(d, "leak.ndjson")
@@ -580,6 +590,13 @@ def front_stage(tier_, key):
                           "threads": rng.choice([1, 4, 16])})
         for i in range(24 if q else 90):
             cases.append({"id": len(cases) + 1, "kind": "cli", "mode": "action", "opts": rand_opts(i * 5 + 2), "n": rng.choice([0, 2])})
+        # option interactions: protocol left to the seed (every residue mod 6) together with each opt-in flag
+        for r in range(6):
+            for ext, buf in ((1, 1), (0, 1), (1, 0)):
+                sd = 6 * rng.randrange(1, 10 ** 6) + r
+                o = dict(rand_opts(r), protocol=-1, seed=sd, seedl=seed_limbs(sd), ext=ext, buf=buf, min=30, max=60)
+                cases.append({"id": len(cases) + 1, "kind": "cli", "mode": ("single", "batch", "action")[(r + ext + 2 * buf) % 3], "opts": o,
+                              "n": 2, "threads": 2})
         cases.append({"id": len(cases) + 1, "kind": "cli", "mode": "batch-fail", "opts": rand_opts(1), "n": 3, "threads": 2})
         # one of the files can be opened but not written (<dir>/1.pkl -> /dev/full): "exits 0 only if all were written"
         if os.path.exists("/dev/full"):
